@@ -96,6 +96,68 @@ for _with_ctx in (False, True):
     _mkt(_with_ctx)
 
 
+TAG = "liquid.extra.tags.translate_tag"
+
+for _with_ctx in (False, True):
+    for _has_plural in (False, True):
+        def _mkg(with_ctx, has_plural):
+            @contract(TAG + ":TranslateNode.gettext", prop="C26", name=f"translate-tag.gettext[plural-block={has_plural},message-context={with_ctx}]")
+            def tg(c):
+                sing, plur = c.str("singular_text"), c.str("plural_text")
+                count = c.int("count")
+                sb = c.obj(TAG + ":MessageBlock", "singular", text=sing)
+                pb = c.obj(TAG + ":MessageBlock", "plural", text=plur) if has_plural else NONE
+                self = c.obj(TAG + ":TranslateNode", "node", singular_block=sb, plural_block=pb)
+                tr = _null_translations(c)
+                mc = c.str("message_context") if with_ctx else NONE
+                if with_ctx:
+                    c.requires(z3.Length(mc.t) > 0, "a message context was given")
+                c.call(tr, self_val=self, count=count, message_context=mc)
+                want = z3.If(z3.And(z3.BoolVal(has_plural), count.t != 1), plur.t, sing.t)
+                c.ensures("plural-text-exactly-when-there-is-a-plural-block-and-the-count-is-not-1(including-0)", lambda r: unbox_s(r.value) == want)
+                c.raises()
+                c.replay("code", code=REPLAY_TAGCOUNT)
+        _mkg(_with_ctx, _has_plural)
+
+
+@contract(TAG + ":TranslateNode.resolve_count", prop="C26")
+def resolve_count(c):
+    """the count used to choose the form is the integer value of the count argument, 1 when
+    there is none or it is not a number -- for any value, without raising"""
+    std_globals(c)
+    v = c.any("count_argument")
+    for a in ("__int__", "__index__", "__trunc__"):
+        c.requires(z3.Not(z3.And(U.is_ref(v.t), z3.Function("ref_hasattr$" + a, U, B)(v.t))), "JSON-like data")
+    given = c.bool("count_argument_given")
+    self = c.obj(TAG + ":TranslateNode", "node", message_count_var=const("count"))
+
+    def entry(eng, cc, func):
+        outs = []
+        for s, g in eng.branch(cc.st, given.t):
+            scope = s.alloc(HDict(items={"count": v} if g else {}))
+            outs.extend(eng.run(func, s, [c.any("context"), scope], {}, self_val=self))
+        return outs
+    c.entry = entry
+    c.ensures("an-integer-count-is-itself-and-no-count-means-1", lambda r: z3.And(U.is_int(box(r.value)), z3.Implies(z3.And(given.t, U.is_int(v.t)), box(r.value) == v.t), z3.Implies(z3.Not(given.t), box(r.value) == U.int(1))))
+    c.raises("LiquidValueError")  # a digit string beyond the interpreter's int-to-str limit (a Liquid error, C02)
+    c.replay("code", code=REPLAY_TAGCOUNT)
+
+
+REPLAY_TAGCOUNT = r'''
+def run(m):
+    from liquid import Environment
+    env = Environment(extra=True)
+    t = env.from_string("{% translate count: n %}{{ count }} item{% plural %}{{ count }} items{% endtranslate %}")
+    out = []
+    for n in (0, 1, 2, None, [1]):
+        try:
+            out.append(t.render(n=n))
+        except Exception as e:
+            out.append(type(e).__name__)
+    return {"violated": out != ["0 items", "1 item", "2 items", " item", "1 item"], "observed": out}
+'''
+
+
 @structural("C26", "substitution-shape")
 def substitution_shape():
     """format_message of the filters substitutes ONLY regex matches of %(name)s (re_vars.sub)
